@@ -354,6 +354,21 @@ def load_findings(pid):
     return {f["id"]: f for f in data.get("findings", []) if f.get("property") == pid and f.get("status") == "known"}
 
 
+def call_finding_of(plugin, case, impl, why, model):
+    """finding_of(case, impl, why) or, if the plugin declares a 4th parameter, finding_of(case, impl,
+    why, model): a plugin may then accept a known finding only where the implementation also behaves
+    as its (unfixed-code) model predicts. model is None when the model was not run on the case."""
+    f = getattr(plugin, "finding_of", None)
+    if f is None:
+        return None
+    try:
+        import inspect
+        n = len(inspect.signature(f).parameters)
+    except (TypeError, ValueError):
+        n = 3
+    return f(case, impl, why, model) if n >= 4 else f(case, impl, why)
+
+
 # ----------------------------------------------------------------------------- main
 
 def all_pids():
@@ -484,7 +499,7 @@ def main():
         why = plugin.oracle(c, impl[i])
         fid = None
         if why or (model[i] is not None and not plugin.compare(c, impl[i], model[i])):
-            fid = plugin.finding_of(c, impl[i], why) if hasattr(plugin, "finding_of") else None
+            fid = call_finding_of(plugin, c, impl[i], why, model[i])
         if fid and fid in known:
             known_hits.setdefault(fid, c)
             continue
